@@ -90,6 +90,21 @@ def main():
                 pass
         usable[group_name] = ok
 
+    direct_cache = {}
+
+    def direct_method(asg, fmt, kw):
+        key = (asg, fmt)
+        if key not in direct_cache:
+            from tensora.expression import parse_assignment
+            from tensora.format import parse_format
+            from tensora.problem import Problem
+
+            a = parse_assignment(asg).unwrap()
+            formats = {n: t.format for n, t in kw.items()}
+            formats[a.target.name] = parse_format(fmt).unwrap()
+            direct_cache[key] = _porcelain.TensorMethod(Problem(a, formats), backend)
+        return direct_cache[key]
+
     def pointers(t):
         """addresses of every kernel-allocatable array of the struct behind Tensor t"""
         c = t.cffi_tensor
@@ -141,7 +156,13 @@ def main():
                 n = fresh_name()
                 asg, fmt, kw = rng.choice(usable[op])
                 rec["variant"] = [asg, fmt]
-                t = ev(asg, fmt, **kw)
+                if rng.random() < 0.2:
+                    # a Problem constructed directly, inputs listed BEFORE the target: the kernel's
+                    # parameter order is the order of the formats, not "target first"
+                    rec["variant"].append("direct-problem-inputs-first")
+                    t = direct_method(asg, fmt, kw)(**kw)
+                else:
+                    t = ev(asg, fmt, **kw)
                 next_tid[0] += 1
                 tid = next_tid[0]
                 rec.update({"new_tid": tid, "pointers": pointers(t), "name": n})
